@@ -313,7 +313,7 @@ def _correspond(ctx, corr, rng, T, ls):
     n = 0
     for N in range(1, 33):
         vals = {0, 1, (1 << N) - 1, 1 << (N - 1), (1 << N) // 3, ((1 << N) - 1) ^ ((1 << N) // 3)}
-        for _ in range(6 if T else 2):
+        for _ in range(12 if T else 5):
             vals.add(rng.randrange(1 << N))
         for v in sorted(vals):
             for given in (False, True):
@@ -359,7 +359,7 @@ def _correspond(ctx, corr, rng, T, ls):
         w = E.dali_width()
         vals = {0, (1 << w) - 1, 0xABCDEF & ((1 << w) - 1), 0x800000 >> (24 - w), 1 << (w - 1)}
         vals |= {1 << b for b in range(w)} if (T or en.startswith("user")) else {1, 1 << (w - 1)}
-        for _ in range(12 if T else 4):
+        for _ in range(40 if T else 12):
             vals.add(rng.randrange(1 << w))
         for v in sorted(vals):
             a, i = rng.randrange(64), rng.randrange(0, 3)
@@ -434,7 +434,7 @@ def _correspond(ctx, corr, rng, T, ls):
     # ---- discovery ----------------------------------------------------------------------------
     suite = "autodiscover"
     n = 0
-    sizes = list(range(0, 65)) if T else [0, 1, 2, 3, 5, 8, 16, 33, 63, 64] + [rng.randrange(65) for _ in range(6)]
+    sizes = (list(range(0, 65)) * 3) if T else [0, 1, 2, 3, 5, 8, 16, 33, 63, 64] + [rng.randrange(65) for _ in range(20)]
     for nd in sizes:
         addrs = rng.sample(range(64), nd)
         devs = {}
@@ -468,7 +468,7 @@ def _correspond(ctx, corr, rng, T, ls):
     sc = {"suite": suite, "bus": bus_line(devs), "call": {"kind": "autodiscover", "form": "list", "addrs": [3]}}
     end, res, badop, trace = run_scenario(ls, sc)
     if res.get("sync") != "1" or res.get("model", "").replace("~", " ") != end:
-        corr.disagree(suite, sc, res.get("raw"), end)
+        corr.disagree(suite, sc, res.get("answer"), end)
     n += 1
     corr.count(suite, n)
     corr.sample({"suite": suite, "last_bus_devices": len(devs), "outcome": end[:80]})
@@ -490,6 +490,6 @@ def replay(ctx, payload):
     for t in trace:
         print("   %s %d 0x%x -> %s" % t)
     print("real code outcome:", end)
-    print("driver verdict:", res.get("raw"))
+    print("driver verdict:", res.get("answer"))
     return res.get("post", "ok") != "ok" or res.get("sync") != "1" or \
         res.get("model", "").replace("~", " ") != end
